@@ -420,6 +420,39 @@ Definition py_binop (o : string) (a b : val) : res val :=
     | _ => Unm
     end else Unm.
 
+(* _e_dyad_power on one pair: float power, then integers when the result is whole *)
+Definition kg_power (a b : val) : res val :=
+  match b with
+  | VS _ e =>
+      match nat_of_num e with
+      | Some n =>
+          match a with
+          | VS _ x => let r := NR (to_f (n_pow_nat (NR (to_f x)) n)) in
+                      Ok (if is_integral r then VS false (trunc_to_int r)    (* to_int_array: int(r), a Python int *)
+                          else VS true r)
+          | V1 l => let r := map (fun x => n_pow_nat x n) l in
+                    Ok (V1 (if forallb is_integral r then map trunc_to_int r else r))
+          | _ => Unm
+          end
+      | None => Unm
+      end
+  | _ => Unm
+  end.
+
+(* backends/base.py compiled_divide: a scalar divisor equal to 0 raises, else a / b *)
+Definition py_div_guarded (a b : val) : res val :=
+  match b with
+  | VS _ y => if is_zero y then Err else
+              match a with VS false x => if pyscalar b then Ok (VS false (n_div x y)) else np_lift2 n_div a b
+                         | _ => np_lift2 n_div a b end
+  | _ => np_lift2 n_div a b
+  end.
+
+(* the helper a binary verb is emitted as a call of: _div = compiled_divide, _pow = eval_dyad_power *)
+Definition py_helper (c : string) (a b : val) : res val :=
+  if String.eqb c "_div" then py_div_guarded a b else
+  if String.eqb c "_pow" then kg_power a b else Unm.
+
 (* `((l <cmp> r)*1)` *)
 Definition py_cmp (o : string) (a b : val) : res val :=
   if String.eqb o "==" then py_arith n_eq a b else
@@ -510,24 +543,6 @@ Definition kg_arith (f : num -> num -> num) (a b : val) : res val :=
   else Err.                                                (* UFuncTypeError / TypeError *)
 
 Definition isscalar (v : val) : bool := match v with VS _ _ => true | _ => false end.
-
-(* _e_dyad_power on one pair: float power, then integers when the result is whole *)
-Definition kg_power (a b : val) : res val :=
-  match b with
-  | VS _ e =>
-      match nat_of_num e with
-      | Some n =>
-          match a with
-          | VS _ x => let r := NR (to_f (n_pow_nat (NR (to_f x)) n)) in
-                      Ok (VS true (if is_integral r then trunc_to_int r else r))
-          | V1 l => let r := map (fun x => n_pow_nat x n) l in
-                    Ok (V1 (if forallb is_integral r then map trunc_to_int r else r))
-          | _ => Unm
-          end
-      | None => Unm
-      end
-  | _ => Unm
-  end.
 
 Definition kg_dyad (op : string) (a b : val) : res val :=
   if String.eqb op "+" then kg_arith n_add a b else
@@ -624,29 +639,12 @@ Fixpoint run_history (T : tables) (guard catch_all : bool) (memo : option (optio
 Definition numeric (v : val) : bool :=
   match v with VS _ _ | V1 _ => true | V2 r => rect r | _ => false end.
 
-(* x is evaluated by the emitted code with Python scalars only *)
-Fixpoint pypure (rho : env) (e : expr) : bool :=
-  match e with
-  | ELitI _ | ELitR _ _ => true
-  | ESym s => match rho s with Some v => pyscalar v | None => false end
-  | EDyad _ a b => pypure rho a && pypure rho b
-  | EMonad _ a => pypure rho a
-  | _ => false
-  end.
-
-Definition is_undef (r : res val) : bool := match r with Ok VUndef => true | _ => false end.
-
-(* D5: variables bound to numeric scalars / rank-1 / rank-2 arrays; no ^ (finding K4); a division
-   that the interpreter answers with :undefined has Python-scalar operands (else finding K6) *)
+(* D5: variables bound to numeric scalars / rank-1 / rank-2 arrays *)
 Fixpoint d5 (rho : env) (e : expr) : bool :=
   match e with
   | ELitI _ | ELitR _ _ => true
   | ESym s => match rho s with Some v => numeric v | None => false end
-  | EDyad op a b =>
-      d5 rho a && d5 rho b && negb (String.eqb op "^") &&
-      (if String.eqb op "%" then
-         (if is_undef (interp rho e) then pypure rho a && pypure rho b else true)
-       else true)
+  | EDyad _ a b => d5 rho a && d5 rho b
   | EMonad _ a => d5 rho a
   | EAdv _ _ a => d5 rho a
   | EOther => false
